@@ -46,3 +46,31 @@ Theorem C19_discount_rule : forall t,
   discount_weight t = Z.of_N (weight (explicitise t)).
 Proof. exact discount_rule. Qed.
 Print Assumptions C19_discount_rule.
+
+(* the discounted virtual size is the discounted weight divided by four, rounded up *)
+Theorem C19_discount_vsize_ceil : forall t,
+  (4 * discount_vsize t >= discount_weight t /\ 4 * discount_vsize t < discount_weight t + 4)%Z.
+Proof. exact discount_vsize_ceil. Qed.
+Print Assumptions C19_discount_vsize_ceil.
+
+(* it coincides with the undiscounted virtual size when no output is confidential *)
+Theorem C19_discount_vsize_eq_when_no_confidential : forall t,
+  forallb (fun o => negb (is_conf_out o)) (t_outs t) = true -> discount_vsize t = Z.of_N (vsize t).
+Proof. exact discount_vsize_eq_when_no_confidential. Qed.
+Print Assumptions C19_discount_vsize_eq_when_no_confidential.
+
+(* and is the virtual size of the transaction with every confidential output made explicit *)
+Theorem C19_discount_vsize_rule : forall t,
+  forallb conf_shape (t_outs t) = true ->
+  has_witness t = true -> has_witness (explicitise t) = true ->
+  discount_vsize t = Z.of_N (vsize (explicitise t)).
+Proof. exact discount_vsize_rule. Qed.
+Print Assumptions C19_discount_vsize_rule.
+
+(* the division as Go performs it (truncation towards zero) gives the same number there *)
+Theorem C19_discount_vsize_go_rule : forall t,
+  forallb conf_shape (t_outs t) = true ->
+  has_witness t = true -> has_witness (explicitise t) = true ->
+  discount_vsize_go t = Z.of_N (vsize (explicitise t)).
+Proof. exact discount_vsize_go_rule. Qed.
+Print Assumptions C19_discount_vsize_go_rule.
